@@ -26,9 +26,11 @@ import (
 	"go/parser"
 	"go/token"
 	"go/types"
+	"math"
 	"os"
 	"path/filepath"
 	"sort"
+	"strconv"
 	"strings"
 )
 
@@ -111,6 +113,14 @@ type gl struct {
 	extPure     map[string]string // "pkg.Func" with a pure GoRt/model counterpart (assumed semantics, trusted base)
 	funcAlias   map[string]string // Go function name -> translated name when they differ
 	ioReaderBuf bool // an io.Reader parameter wrapped by bufio.NewReader is the abstract BufRd
+	ioReaderScan bool // an io.Reader parameter wrapped by bufio.NewScanner (default line splitter) is the abstract ScanRd
+	scanObj     types.Object            // the local holding bufio.NewScanner(r)
+	scanTok     string                  // inside `for sc.Scan() {}`: the Lean name of the current token
+	wrMethods   map[string]string       // "Type.Method" of a translated writer method (io.Writer = Wr) -> its Lean name
+	usesRoom    bool                    // the function hands a *bytes.Buffer to a translated writer method: parameter `room`
+	curBody     *ast.BlockStmt          // body of the function being translated (funcOrMethod)
+	scanLoops   int                     // `for sc.Scan()` loops translated in the current function
+	reLocals    map[types.Object]string // locals holding regexp.MustCompile(<constant>): the pattern
 	yield2      bool // the iter.Seq2 closure being translated yields pairs
 	yield2T     [2]types.Type
 	runeAsByte  map[types.Object]bool // rune loop variables read as bytes (see rangeStmt)
@@ -680,6 +690,11 @@ func (g *gl) leanType(t types.Type) string {
 			return "BufRd"
 		}
 	}
+	if g.ioReaderScan {
+		if n, ok := t.(*types.Named); ok && n.Obj().Pkg() != nil && n.Obj().Pkg().Path() == "io" && n.Obj().Name() == "Reader" {
+			return "ScanRd"
+		}
+	}
 	if it, ok := t.Underlying().(*types.Interface); ok && it.NumMethods() == 0 && g.anyLean != "" {
 		return g.anyLean
 	}
@@ -950,7 +965,7 @@ var leanKeywords = map[string]bool{"at": true, "from": true, "fun": true, "do": 
 var vocabulary = map[string]bool{"idx": true, "setIdx": true, "slice": true, "len": true, "upTo": true, "upToStep": true, "downFrom": true,
 	"enum": true, "cmp": true, "u8": true, "shl8": true, "shrInt": true, "andInt": true, "quo": true, "rem": true, "mapGet": true,
 	"copyInto": true, "containsAny": true, "replaceAll": true, "scan": true, "scanErr": true, "endErr": true, "wrWrite": true, "itoa": true,
-	"mapHas": true, "mapSet": true, "mapErase": true, "heap": true, "makeCap": true, "sprintf1": true, "fuel": true, "setInsert": true, "setErase": true, "sortInts": true, "sortByLess": true, "searchGo": true, "min": true, "max": true,
+	"nonSpaceFields": true, "isSpaceRe": true, "mapHas": true, "mapSet": true, "mapErase": true, "heap": true, "makeCap": true, "sprintf1": true, "fuel": true, "setInsert": true, "setErase": true, "sortInts": true, "sortByLess": true, "searchGo": true, "min": true, "max": true,
 	"none": true, "some": true, "pure": true}
 
 // variables the translation introduces in reader / iterator / writer methods and iter.Seq closures
@@ -1315,6 +1330,67 @@ func (g *gl) nilOf(t types.Type) string {
 	return ""
 }
 
+// nilIffEmpty: e is a local declared `var x []T` (nil) whose every assignment is `x = append(x, a, …)` with at
+// least one element, and whose address is never taken: then x is nil exactly when it is empty
+func (g *gl) nilIffEmpty(e ast.Expr) bool {
+	id, ok := e.(*ast.Ident)
+	if !ok || g.curBody == nil {
+		return false
+	}
+	obj := g.objOf(id)
+	declOK, bad := false, false
+	ast.Inspect(g.curBody, func(n ast.Node) bool {
+		switch v := n.(type) {
+		case *ast.ValueSpec:
+			for _, nm := range v.Names {
+				if g.info.Defs[nm] == obj {
+					if len(v.Values) == 0 {
+						declOK = true
+					} else {
+						bad = true
+					}
+				}
+			}
+		case *ast.AssignStmt:
+			for i, l := range v.Lhs {
+				lid, ok := l.(*ast.Ident)
+				if !ok || g.objOf(lid) != obj {
+					continue
+				}
+				if v.Tok != token.ASSIGN || len(v.Lhs) != len(v.Rhs) {
+					bad = true
+					continue
+				}
+				c, ok := v.Rhs[i].(*ast.CallExpr)
+				fn, isId := ast.Expr(nil), false
+				if ok {
+					fn = c.Fun
+					_, isId = fn.(*ast.Ident)
+				}
+				if !ok || !isId || fn.(*ast.Ident).Name != "append" || len(c.Args) < 2 || c.Ellipsis.IsValid() {
+					bad = true
+					continue
+				}
+				if a0, ok := c.Args[0].(*ast.Ident); !ok || g.objOf(a0) != obj {
+					bad = true
+				}
+			}
+		case *ast.UnaryExpr:
+			if x, ok := v.X.(*ast.Ident); ok && v.Op == token.AND && g.objOf(x) == obj {
+				bad = true
+			}
+		case *ast.RangeStmt:
+			for _, kv := range []ast.Expr{v.Key, v.Value} {
+				if x, ok := kv.(*ast.Ident); ok && g.objOf(x) == obj {
+					bad = true
+				}
+			}
+		}
+		return true
+	})
+	return declOK && !bad
+}
+
 func isNilIdent(e ast.Expr) bool {
 	id, ok := e.(*ast.Ident)
 	return ok && id.Name == "nil"
@@ -1398,6 +1474,9 @@ func (g *gl) binary(v *ast.BinaryExpr) ex {
 		}
 		if yid, ok := v.Y.(*ast.Ident); ok && yid.Name == "nil" && isList(lt) && g.rdKind == "" {
 			// nil and empty slices are not distinguished (GoRt): x == nil reads "x is empty"
+			if g.ioReaderScan && !g.nilIffEmpty(v.X) {
+				g.die(v, "nil test of a slice that may be empty and not nil")
+			}
 			if v.Op == token.EQL {
 				return ex{text: "len " + l.arg() + " == 0"}
 			}
@@ -1474,7 +1553,52 @@ func (e ex) opnd2() string {
 	return e.text
 }
 
+// scanCall names the method when e is a call of a method of the local line scanner
+func (g *gl) scanCall(e ast.Expr) string {
+	c, ok := e.(*ast.CallExpr)
+	if !ok || g.scanObj == nil {
+		return ""
+	}
+	sel, ok := c.Fun.(*ast.SelectorExpr)
+	if !ok {
+		return ""
+	}
+	id, ok := sel.X.(*ast.Ident)
+	if !ok || g.objOf(id) != g.scanObj {
+		return ""
+	}
+	return sel.Sel.Name
+}
+
 func (g *gl) call(c *ast.CallExpr) ex {
+	switch m := g.scanCall(c); m {
+	case "":
+	case "Text", "Bytes":
+		if g.scanTok == "" || len(c.Args) != 0 {
+			g.die(c, "scanner token outside the scan loop")
+		}
+		return atomE(g.scanTok)
+	case "Err":
+		if g.scanTok != "" || g.scanLoops != 1 {
+			g.die(c, "Scanner.Err before the scan loop has ended")
+		}
+		return atomE("(scanErr " + g.nameOf(g.scanObj) + ".ending)")
+	default:
+		g.die(c, "scanner method "+m)
+	}
+	if sel, ok := c.Fun.(*ast.SelectorExpr); ok && g.reLocals != nil {
+		if id, ok := sel.X.(*ast.Ident); ok {
+			if pat, ok := g.reLocals[g.objOf(id)]; ok {
+				// re.FindAllString(s, -1) for the pattern \S+: the maximal runs of non-space bytes (GoRt.nonSpaceFields)
+				if pat == `\S+` && sel.Sel.Name == "FindAllString" && len(c.Args) == 2 {
+					if tv, ok := g.info.Types[c.Args[1]]; ok && tv.Value != nil && constant.Sign(tv.Value) < 0 {
+						return ex{text: "nonSpaceFields " + g.expr(c.Args[0]).arg()}
+					}
+				}
+				g.die(c, "regexp use")
+			}
+		}
+	}
 	if sel, ok := c.Fun.(*ast.SelectorExpr); ok && g.extPure != nil {
 		if pk, ok := sel.X.(*ast.Ident); ok {
 			if pn, ok := g.info.Uses[pk].(*types.PkgName); ok {
@@ -2632,6 +2756,35 @@ func (g *gl) stmt(w *wr, s ast.Stmt) {
 				g.die(v, "multi-value :=")
 			}
 			id := v.Lhs[0].(*ast.Ident)
+			if c, ok := v.Rhs[0].(*ast.CallExpr); ok && g.ioReaderScan && len(c.Args) == 1 {
+				if sel, ok := c.Fun.(*ast.SelectorExpr); ok {
+					if pk, ok := sel.X.(*ast.Ident); ok {
+						if pn, ok := g.info.Uses[pk].(*types.PkgName); ok {
+							switch pn.Imported().Path() + "." + sel.Sel.Name {
+							case "bufio.NewScanner":
+								// sc := bufio.NewScanner(r): the scanner IS the token stream of r (tokens not yet returned, how r ends)
+								if g.scanObj != nil {
+									g.die(v, "second scanner")
+								}
+								g.scanObj = g.objOf(id)
+								w.line("let " + g.nameOf(g.objOf(id)) + " : ScanRd := " + g.expr(c.Args[0]).opnd())
+								return
+							case "regexp.MustCompile":
+								tv, ok := g.info.Types[c.Args[0]]
+								if !ok || tv.Value == nil || tv.Value.Kind() != constant.String {
+									g.die(v, "regexp with a computed pattern")
+								}
+								if g.reLocals == nil {
+									g.reLocals = map[types.Object]string{}
+								}
+								g.reLocals[g.objOf(id)] = constant.StringVal(tv.Value)
+								w.line("-- " + id.Name + " := regexp.MustCompile(" + strconv.Quote(constant.StringVal(tv.Value)) + ")")
+								return
+							}
+						}
+					}
+				}
+			}
 			if c, ok := v.Rhs[0].(*ast.CallExpr); ok && g.ioReaderBuf && len(c.Args) == 1 {
 				if sel, ok := c.Fun.(*ast.SelectorExpr); ok && sel.Sel.Name == "NewReader" {
 					if pk, ok := sel.X.(*ast.Ident); ok {
@@ -2672,6 +2825,14 @@ func (g *gl) stmt(w *wr, s ast.Stmt) {
 				case *ast.CallExpr:
 					if sel, ok := r.Fun.(*ast.SelectorExpr); ok && sel.Sel.Name == "NewBuffer" && len(r.Args) == 1 && isNilIdent(r.Args[0]) {
 						empty = true
+					}
+				}
+				if c, ok := v.Rhs[0].(*ast.CallExpr); ok && !empty && g.wrMethods != nil {
+					if sel, ok := c.Fun.(*ast.SelectorExpr); ok && sel.Sel.Name == "NewBuffer" && len(c.Args) == 1 {
+						// bytes.NewBuffer(b): the buffer starts with the bytes of b
+						g.mut[g.objOf(id)] = true
+						w.line(bindText("let mut ", g.nameOf(g.objOf(id))+" : List UInt8", g.expr(c.Args[0])))
+						return
 					}
 				}
 				if !empty {
@@ -2906,6 +3067,51 @@ func (g *gl) stmt(w *wr, s ast.Stmt) {
 				// the consumer's answer is ignored by the Go code: the item is logged, nothing is asked
 				w.line("log := log ++ [" + g.yieldPair(c) + "]")
 				return
+			}
+		}
+		if c, ok := v.X.(*ast.CallExpr); ok && g.scanObj != nil {
+			if sel, ok := c.Fun.(*ast.SelectorExpr); ok {
+				if id, ok := sel.X.(*ast.Ident); ok && g.objOf(id) == g.scanObj {
+					if sel.Sel.Name == "Buffer" && len(c.Args) == 2 && g.scanLoops == 0 {
+						// sc.Buffer(buf, math.MaxInt): lifts the token-size limit -- ScanRd has none
+						if tv, ok := g.info.Types[c.Args[1]]; ok && tv.Value != nil {
+							if n, exact := constant.Int64Val(tv.Value); exact && n == math.MaxInt64 {
+								w.line("-- " + id.Name + ".Buffer(_, math.MaxInt): no token is too long")
+								return
+							}
+						}
+					}
+					g.die(c, "scanner method "+sel.Sel.Name+" as a statement")
+				}
+			}
+		}
+		if c, ok := v.X.(*ast.CallExpr); ok && g.wrMethods != nil && len(c.Args) == 1 {
+			if sel, ok := c.Fun.(*ast.SelectorExpr); ok {
+				if id, ok := sel.X.(*ast.Ident); ok {
+					if fs, isRecv := g.structLoc[g.objOf(id)]; isRecv {
+						rt := g.objOf(id).Type()
+						if p, ok := rt.Underlying().(*types.Pointer); ok {
+							rt = p.Elem()
+						}
+						if nt, ok := rt.(*types.Named); ok {
+							if ln, ok := g.wrMethods[nt.Obj().Name()+"."+sel.Sel.Name]; ok {
+								if av, ok := g.accumVar(c.Args[0]); ok {
+									// f.Write(buf) with buf a *bytes.Buffer, result ignored: the buffer is the Wr ⟨room, bytes so far⟩;
+									// a Buffer never refuses bytes, which is what `room` (a parameter) being large enough says
+									g.usesRoom = true
+									parts := []string{ln}
+									for _, f := range fs {
+										parts = append(parts, id.Name+"_"+f)
+									}
+									t := g.tmp()
+									w.line("let " + t + " ← " + strings.Join(parts, " ") + " ⟨room, " + av + "⟩")
+									w.line(av + " := " + t + ".2.out")
+									return
+								}
+							}
+						}
+					}
+				}
 			}
 		}
 		if c, ok := v.X.(*ast.CallExpr); ok && g.accumStmt(w, c) {
@@ -3499,6 +3705,30 @@ func (g *gl) forStmt(w *wr, v *ast.ForStmt) {
 	if g.readByteLoop(w, v) {
 		return
 	}
+	if g.scanObj != nil && v.Init == nil && v.Post == nil && g.scanCall(v.Cond) == "Scan" {
+		// for sc.Scan() { body }: one iteration per remaining token, in order.  The body may leave early (return,
+		// break) but never advances the scanner itself, and nothing scans after the loop (checked: one loop, no
+		// other Scan call), so the tokens not consumed are never looked at.
+		if g.scanLoops > 0 || g.pendLabel != "" {
+			g.die(v, "second scan loop")
+		}
+		g.scanLoops++
+		ast.Inspect(v.Body, func(n ast.Node) bool {
+			if e, ok := n.(ast.Expr); ok && g.scanCall(e) == "Scan" {
+				g.die(v, "Scan inside the scan loop")
+			}
+			return true
+		})
+		g.scanTok = g.nameOf(g.scanObj) + "_tok"
+		w.line("for " + g.scanTok + " in " + g.nameOf(g.scanObj) + ".lines do")
+		w.ind++
+		g.loops = append(g.loops, "for:@")
+		g.block(w, v.Body.List)
+		g.loops = g.loops[:len(g.loops)-1]
+		w.ind--
+		g.scanTok = ""
+		return
+	}
 	label := g.pendLabel
 	g.pendLabel = ""
 	if v.Init == nil && v.Post == nil && v.Cond == nil && g.rdKind == "" && (g.yieldT == "" || (g.yieldName != "" && g.yieldName != "yield") || g.yield2) {
@@ -3698,8 +3928,8 @@ func (g *gl) rangeStmt(w *wr, v *ast.RangeStmt) {
 	}
 	xt := g.typeOf(v.X)
 	x := g.expr(v.X) // before the loop variables are named: they are not in scope here
-	if x.act && g.heapT != "" {
-		// the ranged expression reads the heap (x.m): bind it first
+	if x.act && (g.heapT != "" || g.ioReaderScan) {
+		// the ranged expression reads the heap (x.m) or may panic (s[1:]): it is evaluated once, before the loop
 		t := g.tmp()
 		w.line("let " + t + " ← " + x.text)
 		x = atomE(t)
@@ -4166,6 +4396,8 @@ func (g *gl) funcOrMethod(recvType, goName, name, rel, placeholder string) {
 		g.findMutated(fd.Body)
 		g.yieldT = ""
 		g.curFunc, g.lits = name, nil
+		g.curBody, g.scanObj, g.scanTok, g.scanLoops, g.reLocals = fd.Body, nil, "", 0, nil
+		g.usesRoom = false
 		g.structLoc = map[types.Object][]string{}
 		defer func() { g.curFunc = "" }()
 		sig := fd.Type
@@ -4461,6 +4693,10 @@ func (g *gl) funcOrMethod(recvType, goName, name, rel, placeholder string) {
 		}
 		g.yieldT = ""
 		globals := g.sortedGlobals()
+		if g.usesRoom {
+			params = append([]string{"(room : Nat)"}, params...)
+			doc += "; the *bytes.Buffer handed to the writer method is the Wr with `room` bytes of room (a Buffer never refuses bytes: theorems take `room` at least the bytes written)"
+		}
 		if g.usesFuel {
 			params = append([]string{"(fuel : Nat)"}, params...)
 			g.funcs[name].fuel = true
@@ -5251,6 +5487,13 @@ func goLean(repo, out string) {
 	g4.writerMethod("fastq_Write", "Fastq", "Write", "formats/fastq",
 		"def fastq_Write (f_Name : "+B+") (f_Sequence : "+B+") (f_Quals : "+B+") (w : Wr) : Option (GoErr × Wr) := none", nil)
 	w.WriteString(g4.funcs["fastq_Write"].text + "\n")
+	// MarshalText of both: the pre-computed length, the Write into a *bytes.Buffer, the self-check that panics on a mismatch
+	g3.wrMethods = map[string]string{"Fasta.Write": "fasta_Write"}
+	g3.method("Fasta", "MarshalText", "fasta_MarshalText", "formats/fasta", "def fasta_MarshalText (room : Nat) (f_Name : "+B+") (f_Sequence : "+B+") : Option (("+B+") × GoErr) := none")
+	w.WriteString(g3.funcs["fasta_MarshalText"].text + "\n")
+	g4.wrMethods = map[string]string{"Fastq.Write": "fastq_Write"}
+	g4.method("Fastq", "MarshalText", "fastq_MarshalText", "formats/fastq", "def fastq_MarshalText (room : Nat) (f_Name : "+B+") (f_Sequence : "+B+") (f_Quals : "+B+") : Option (("+B+") × GoErr) := none")
+	w.WriteString(g4.funcs["fastq_MarshalText"].text + "\n")
 	// regions: the whole package
 	g6 := loadPkg(filepath.Join(repo, "regions"))
 	const EV, IV = "(Int × Int × Bool)", "(Int × (List Int))"
@@ -5416,6 +5659,22 @@ func goLean(repo, out string) {
 	g8.writerMethod("bed_Write", "BED", "Write", "formats/bed",
 		"def bed_Write (b_N : Int) (b_Chrom : "+B+") (b_ChromStart : Int) (b_ChromEnd : Int) (b_Name : "+B+") (b_Score : Int) (b_Strand : "+B+") (b_ThickStart : Int) (b_ThickEnd : Int) (b_ItemRGB : "+B+") (b_BlockCount : Int) (b_BlockSizes : List Int) (b_BlockStarts : List Int) (w : Wr) : Option (GoErr × Wr) := none", nil)
 	w.WriteString(g8.funcs["bed_Write"].text + "\n")
+	// formats/smtext: ReadNCBI and extractSingleChar.  The io.Reader wrapped by bufio.NewScanner is the abstract ScanRd
+	// (remaining line tokens + how the source ends), the regexp \S+ is GoRt.nonSpaceFields, float64 scores are Int as in
+	// package align, strconv.ParseFloat is a parameter
+	g11 := loadPkg(filepath.Join(repo, "formats", "smtext"))
+	g11.floatInt, floatAsInt = true, true
+	g11.ioReaderScan = true
+	g11.recT = map[string]bool{}
+	const PFI = "List UInt8 → Int → Int × GoErr"
+	g11.extFuncs = map[string]extFunc{"strconv.ParseFloat": {"strconv_ParseFloat", PFI}}
+	g11.function("extractSingleChar", "formats/smtext", "def extractSingleChar (s : "+B+") : Option (UInt8 × GoErr) := none")
+	g11.funcOrMethod("", "ReadNCBI", "smtext_ReadNCBI", "formats/smtext", "def smtext_ReadNCBI (strconv_ParseFloat : "+PFI+") (r : ScanRd) : Option (("+MT+") × GoErr) := none")
+	floatAsInt = false
+	for _, n := range g11.order {
+		w.WriteString(g11.funcs[n].text)
+		w.WriteString("\n")
+	}
 	fmt.Fprintln(w, "end Bio.Generated.GoSrc")
 	os.Remove(out)
 	if err := os.WriteFile(out, w.Bytes(), 0o644); err != nil {
